@@ -242,4 +242,5 @@ func genC11(t *testing.T) {
 		}
 		run(c)
 	}
+	progsC11(t)
 }
